@@ -129,6 +129,8 @@ class Ctx:
         nerr = len(self.errors)
         try:
             fn(self)
+        except _StoodDown:
+            return
         except AnalysisError as e:
             e.rule = rule_id
             self.errors.append(e)
@@ -263,3 +265,75 @@ class Proxy:
     def recognise(self, cond, rule, func, desc, node=None, witness=None, key=None):
         if rule in self._mapping:
             return self._ctx.recognise(cond, self._mapping[rule], func, desc, node=node, witness=witness, key=key)
+
+
+class Capture:
+    """buffers the obligations a rule reports, so that the verdict of a shape-dependent rule can be weighed against the
+    shape-independent rule that decides the same clause"""
+
+    def __init__(self, ctx):
+        self._ctx = ctx
+        self.buf = []
+
+    def __getattr__(self, k):
+        return getattr(self._ctx, k)
+
+    def ok(self, rule, func, desc, node=None, detail=None):
+        self.buf.append(('ok', (rule, func, desc), {'node': node, 'detail': detail}))
+
+    def violation(self, rule, func, desc, witness, node=None, key=None):
+        self.buf.append(('violation', (rule, func, desc, witness), {'node': node, 'key': key}))
+
+    def check(self, cond, rule, func, desc, witness=None, node=None, key=None):
+        if cond:
+            return self.ok(rule, func, desc, node)
+        return self.violation(rule, func, desc, witness if witness is not None else desc, node, key)
+
+    def recognise(self, cond, rule, func, desc, node=None, witness=None, key=None):
+        if cond:
+            return self.ok(rule, func, desc, node)
+        raise AnalysisError('shape', '%s: construct not recognised: %s' % (getattr(func, 'qual', func), desc))
+
+
+def weighed(rule_id, sym, deciders):
+    """`sym` reads the anchor in the shapes it knows (and, when it can, establishes the clause for all inputs or pins the construct
+    at fault); `deciders` are rules of the same property, run BEFORE it, that decide the same clause by interpreting the code whatever
+    its shape.  When sym cannot establish the clause (a mismatch with what it expects to read, or a shape it does not follow) and the
+    deciders found nothing wrong, that is a limit of sym's reader - noted in the evidence - not a violation.  When a decider did find a
+    violation (or could not run), sym's findings are reported as they are."""
+    def rule(ctx):
+        cap = Capture(ctx)
+        err = None
+        try:
+            sym(cap)
+        except AnalysisError as e:
+            if e.kind not in ('shape', 'anchor'):
+                raise
+            err = e
+        bad = [b for b in cap.buf if b[0] == 'violation']
+        ran = {rid for rid, _ in ctx.rules_run}
+        decided = all(d in ran for d in deciders) and not any(getattr(e, 'rule', None) in deciders for e in ctx.errors)
+        clean = decided and not any((not o.ok) and o.rule in deciders for o in ctx.obligations)
+        for kind, a, kw in cap.buf:
+            if kind == 'ok':
+                ctx.ok(*a, **kw)
+            elif not clean:
+                ctx.violation(*a, **kw)
+        if (bad or err is not None) and clean:
+            why = err.msg if err is not None else '; '.join(sorted({b[1][2] for b in bad}))[:300]
+            ctx.note(rule_id, 'the anchor is not in a shape this rule reads (%s): it stands down; the clause is decided by %s' % (why, ', '.join(deciders)))
+            if not any(b[0] == 'ok' for b in cap.buf):
+                f0 = bad[0][1][1] if bad else None
+                if f0 is not None:
+                    ctx.ok(rule_id, f0, 'shape not read by this rule: clause decided by %s' % ', '.join(deciders))
+                else:
+                    ctx.rules_run.append((rule_id, 0))
+                    raise _StoodDown()
+        elif err is not None:
+            raise err
+    rule.__doc__ = sym.__doc__
+    return rule
+
+
+class _StoodDown(Exception):
+    pass
